@@ -43,3 +43,15 @@ Lemma tcpcl_send_shape_ok :
     = [13; 1017; 44; 1017; 44; 1017; 44; 3023; 1036; 1036; 39; 1036; 39; 1017; 1036; 14; 1017; 44; 1017]
   /\ pkg_cla_tcpclv4_internal_utils__TransferManager_handle__ops = [1036; 1036; 1043; 1043; 44; 44].
 Proof. repeat split; reflexivity. Qed.
+
+(* Client.Start: report channel of 32, "connCloser = nil", keepalive 30, announced Segment MRU
+   1 MiB and Transfer MRU 1 GiB, 15 s to establish the session; Client.handle: the receive loop
+   (a bundle variable per iteration, "err != nil" after the select) *)
+Lemma tcpcl_client_shape_ok :
+  pkg_cla_tcpclv4__Client_Start__lits
+    = [tcpcl_client_report_chan_len; 0; 30; tcpcl_client_segment_mru; tcpcl_client_transfer_mru; 15]
+  /\ Z.of_N tcc_own_segment_mru = tcpcl_client_segment_mru
+  /\ pkg_cla_tcpclv4__Client_Start__ops = [39; 44; 1017; 1017; 1017; 1036; 14; 1036]
+  /\ pkg_cla_tcpclv4__Client_handle__lits = []
+  /\ pkg_cla_tcpclv4__Client_handle__ops = [44; 44; 1036; 1017; 1036; 1036; 1036; 1036; 44].
+Proof. repeat split; reflexivity. Qed.
